@@ -62,6 +62,15 @@ def gen(seed, tier):
             op = "adopt" if via == "adopt-payload" else "create-service"
             payloads.append({"id": "par%d" % i, "flavour": rng.choice(FL), "via": rng.choice(["queued", "service-pre"]), "steps": [["sleep", rng.choice([0.0, 0.0, ad, 2 * ad])], [op, pid], ["block"]], "helper": True})
         payloads.append(spec)
+    if rng.random() < 0.06:
+        # population size is a knob too: several dozen long-running thread payloads / services at once -
+        # each one is started, however many are running already
+        nflood = rng.choice([36, 48])
+        fvia = rng.choice(["adopt", "service"])
+        for j in range(nflood):
+            payloads.append({"id": "fl%d" % j, "flavour": "threading", "via": fvia, "steps": [["block"]], "args": [], "kwargs": {}} if fvia == "adopt" else {"id": "fl%d" % j, "flavour": "threading", "via": "service", "steps": [["block"]], "drop_immediately": False})
+        scripts[1] += [x for j in range(nflood) for x in (["adopt" if fvia == "adopt" else "create-service", "fl%d" % j],)]
+        knobs["step_cap"] = 600000
     if rng.random() < 0.25:
         # nested contexts: a coroutine payload executes (blocking) a payload of the other coroutine flavour,
         # which in turn adopts a payload - the adoption must not wait for the blocked caller's loop
